@@ -161,6 +161,43 @@ func runPolarityCoherent(p *Program, r *RuleResult) {
 						roles[strings.TrimPrefix(ap, crecv+".")] = f.k == factTrue
 					}
 				}
+				// an assertion made before the role test (`t, ok := provider.(*Unit)` first, then
+				// `if !isProvider(x) { error }`) serves the roles every success exit below it
+				// has established
+				{
+					reachB := cview.blocksReachableFrom(b)
+					var common roleFacts
+					for _, ret := range p.successExits(m) {
+						if ret.Block() != b && !reachB[ret.Block()] {
+							continue
+						}
+						cur := roleFacts{}
+						for f := range cview.FactsAt(ret.Block()) {
+							c, ok := f.v.(*ssa.Call)
+							if !ok || (f.k != factTrue && f.k != factFalse) || !p.isProviderFunc(c.Common().StaticCallee()) {
+								continue
+							}
+							ap := accessPath(c.Common().Args[0])
+							if strings.HasPrefix(ap, crecv+".") {
+								cur[strings.TrimPrefix(ap, crecv+".")] = f.k == factTrue
+							}
+						}
+						if common == nil {
+							common = cur
+							continue
+						}
+						for k, v := range common {
+							if cv, ok := cur[k]; !ok || cv != v {
+								delete(common, k)
+							}
+						}
+					}
+					for k, v := range common {
+						if _, have := roles[k]; !have {
+							roles[k] = v
+						}
+					}
+				}
 				n++
 				var rk []string
 				for f, v := range roles {
